@@ -37,7 +37,7 @@ type Kill struct {
 // crashTables: every table a generated program can name.
 func crashTables() (out []string) {
 	for _, p := range Parents {
-		for _, id := range IDs {
+		for _, id := range append(append([]string{}, IDs...), Profiles["c08"].ExtraIDs...) {
 			out = append(out, TableName(p, id))
 		}
 	}
